@@ -465,3 +465,45 @@ Example write_fits_nonvacuous :
   let f := d_file (init_disk ex_ver) in
   0 <= 40 <= zlen f /\ 0 < zlen f /\ zlen (rf_write f 40 (pattern 3024 120 0)) = 4096.
 Proof. vm_compute. intuition (try discriminate; try reflexivity). Qed.
+
+(* ---------------------------------------------------------------- reopen never fails; kills inside the commit-index operations *)
+
+(* every fitting history - kills after any primitive write of any operation included - can be
+   reopened at every step: parsing the file left behind never fails *)
+Definition C08_never_stuck_stmt : Prop :=
+  forall ver h, zlen ver < 8 -> run_fits (init_state ver) h ->
+  exists m d, run (init_state ver) h = Some (m, d) /\ exists m', reopen d = Some m' /\ m_entries m' = m_entries m.
+
+Theorem never_stuck : C08_never_stuck_stmt.
+Proof.
+  intros ver h Hv Hfit.
+  destruct (run_inv h _ (inv_init ver Hv) Hfit) as ([m d] & Hrun & HI).
+  exists m, d. split; [exact Hrun|].
+  destruct (kill_reopen m d OTimer 0 HI I) as (L' & Hre & _ & HP & _).
+  cbn [firstn apply_prims fold_left] in Hre. eexists. split; [exact Hre|]. exact HP.
+Qed.
+
+(* a kill inside setRaftCommitIndex / the one-second flush of the commit index leaves the entries
+   and the write position exactly as they were *)
+Definition C08_commit_ops_keep_entries_stmt : Prop :=
+  forall ver h m d o j, zlen ver < 8 ->
+  run_fits (init_state ver) h -> run (init_state ver) h = Some (m, d) ->
+  (o = OTimer \/ exists v, o = OSetCommit v) ->
+  exists m', after_kill m d o j = Some m' /\ m_entries m' = m_entries m /\ m_cur m' = m_cur m.
+
+Theorem commit_ops_keep_entries : C08_commit_ops_keep_entries_stmt.
+Proof.
+  intros ver h m d o j Hv Hfit Hrun Ho.
+  assert (HI := reach_inv ver h _ Hv Hfit Hrun).
+  assert (Hop : op_fits m o) by (destruct Ho as [->|[v ->]]; exact I).
+  destruct (kill_reopen m d o j HI Hop) as (L' & Hre & _ & HP & _).
+  assert (HL : L' = m_entries m) by (destruct Ho as [->|[v ->]]; exact HP).
+  subst L'. eexists. split; [exact Hre|]. cbn [m_entries m_cur]. split; [reflexivity|].
+  destruct HI as [_ Hc]. cbn [fst] in Hc. symmetry. exact Hc.
+Qed.
+
+Example commit_ops_nonvacuous :
+  exists m d m', run (init_state ex_ver) (ex_history ++ [SOp (OSetCommit 11)]) = Some (m, d) /\
+    after_kill m d OTimer 1 = Some m' /\ m_entries m' = m_entries m /\ m_entries m <> [] /\
+    get_commit m = 11 /\ get_commit m' = 9.
+Proof. eexists. eexists. eexists. split; [vm_compute; reflexivity|]. vm_compute. intuition (try discriminate; try reflexivity). Qed.
